@@ -83,6 +83,7 @@ type runner struct {
 	envId uid.ID
 	ti    mesos.TaskInfo
 
+	hx         *hx // handler mode: requests go through the real executor/handlers.go
 	stormWg    sync.WaitGroup
 	childT0    time.Time // when the first leader announcement was observed
 	lastKillAt time.Time
@@ -288,6 +289,9 @@ func (r *runner) buildTaskInfo() mesos.TaskInfo {
 		tci["user"] = c.UserName
 	}
 	data, _ := json.Marshal(tci)
+	if c.Child.NoCommandData {
+		data = nil
+	}
 	r.envId = uid.New()
 	envStr := r.envId.String()
 	det := "TST"
@@ -362,6 +366,9 @@ func (r *runner) waitOp(h *opHandle, boundMs int) bool {
 	case <-time.After(3 * time.Second):
 	}
 	frame, stack := stuckFrame(h.gid)
+	if frame == "?" && r.hx != nil && h.name == "kill" {
+		frame, stack = stuckHandlerFrame("handleKillEvent")
+	}
 	r.rec(Rec{Ev: "hang", Op: h.id, Name: h.name, Frame: frame, Stack: stack, WaitMs: int64(boundMs + 3000)})
 	return false
 }
@@ -369,6 +376,8 @@ func (r *runner) waitOp(h *opHandle, boundMs int) bool {
 var frameFileRe = regexp.MustCompile(`^\s+(/\S+\.go):\d+`)
 
 // stuckFrame finds the goroutine and returns its innermost function that lives in the repository.
+func runtimeStackAll(buf []byte) int { return runtime.Stack(buf, true) }
+
 func stuckFrame(gid string) (string, string) {
 	buf := make([]byte, 1<<20)
 	n := runtime.Stack(buf, true)
@@ -552,6 +561,14 @@ func runOneCase(path string) {
 	r := &runner{c: &c, t0: time.Now(), f: f}
 	r.rec(Rec{Ev: "begin", Name: fmt.Sprintf("%s/%s/%s", c.Kind, c.Scenario, c.Variant)})
 
+	if c.ViaHandlers {
+		r.hx = bindHandlers(r)
+		if r.hx == nil {
+			r.rec(Rec{Ev: "no-handler-export"})
+			r.rec(Rec{Ev: "end", Msg: "executor export not compiled in"})
+			os.Exit(0)
+		}
+	}
 	hung := false
 	launched := false
 	var lastReq *opHandle
@@ -629,6 +646,15 @@ func runOneCase(path string) {
 			// as executor/handlers.go:handleLaunchEvent: NewTask, then Launch; the task only
 			// becomes addressable by later requests if Launch returned nil
 			r.ti = r.buildTaskInfo()
+			if r.hx != nil {
+				h = r.startOp("launch", func() (string, string) { return "", errStr(r.hx.launch(r.ti)) })
+				if !r.waitOp(h, c.opBoundMs("launch")) {
+					hung = true
+					break
+				}
+				launched = true // whatever the outcome: the handlers must cope with requests for it
+				continue
+			}
 			h = r.startOp("launch", func() (string, string) {
 				r.task = executable.NewTask(r.ti, r.sendStatus, r.sendDeviceEvent, r.sendMessage)
 				if r.task == nil {
@@ -652,6 +678,30 @@ func runOneCase(path string) {
 			continue
 		}
 		task := r.task
+		if r.hx != nil {
+			switch s.Op {
+			case "transition":
+				h = r.startOp("transition:"+s.Evt, func() (string, string) { return r.hx.transition(s) })
+			case "kill":
+				h = r.startOp("kill", r.hx.killAndWait)
+			case "trigger":
+				h = r.startOp("trigger", func() (string, string) { return r.hx.trigger(s) })
+			case "raw":
+				h = r.startOp("raw:"+s.What, func() (string, string) { return r.hx.raw(s) })
+			default:
+				fmt.Fprintln(os.Stderr, "mon-c17: step not available in handler mode:", s.Op)
+				os.Exit(70)
+			}
+			if s.Op == "kill" || (s.Op == "transition" && s.Evt == "STOP") {
+				lastReq = h
+			}
+			if !s.Async {
+				if !r.waitOp(h, c.opBoundMs(s.Op)) {
+					hung = true
+				}
+			}
+			continue
+		}
 		switch s.Op {
 		case "transition":
 			data := r.transitionData(s)
